@@ -73,8 +73,23 @@ def check_aba(spec):
     """Substitute site pattern A by B, then B by A: multiset of (element, position mod lattice) restored; after A->B no A remains."""
     from mofun import Atoms, replace_pattern_in_structure, find_pattern_in_structure
     atol = spec.get('atol', 0.05)
-    case = repl.planted(spec['cell'], spec['pair'], spec['copies'], spec['seed'], noise=spec.get('noise', 0.0))
-    A, B = repl.patterns(spec['pair'])
+    if spec.get('bridged'):
+        # two occurrences of A = (C, N, O) that share their N atom (the second is the first turned by 180 degrees about an axis through N);
+        # B keeps C and N, lists them in the opposite order, and has S in place of O
+        a = np.array([[0., 0, 0], [1.3, 0, 0], [-0.6, 1.0, 0]])
+        cell = geo.CELLS[spec['cell']]
+        rot = geo.rotations(random.Random(spec['seed']), 1, include_axis=False)[0]
+        n = np.array([0.45, 0.5, 0.55]).dot(cell)
+        rel = [a[0] - a[1], a[2] - a[1]]
+        pts = [n] + [n + rot.apply(v) for v in rel] + [n + rot.apply(v * np.array([-1, -1, 1])) for v in rel] + [np.array([0.1, 0.15, 0.2]).dot(cell)]
+        with quiet():
+            S = Atoms(elements=list('NCOCOF'), positions=np.array([geo.wrap(cell, p) for p in pts]), cell=cell)
+            A = Atoms(elements=list('CNO'), positions=a)
+            B = Atoms(elements=list('NCS'), positions=a[[1, 0, 2]])
+        case = dict(structure=S, cell=cell, planted=[(1, 0, 2), (3, 0, 4)])
+    else:
+        case = repl.planted(spec['cell'], spec['pair'], spec['copies'], spec['seed'], noise=spec.get('noise', 0.0))
+        A, B = repl.patterns(spec['pair'])
     S, cell = case['structure'], case['cell']
     random.seed(1)
     with quiet():
@@ -107,7 +122,7 @@ REPLAY = {'selfrepl': replay}
 
 def run(rec, tier, seed):
     rec.rule = ("self-replacement of 7 pattern shapes in 4 cells on planted structures (positions, elements, charges, groups, count, term tuple "
-                "sets unchanged); substitutions A->B->A (single-atom, element-swap, collinear, element swap with a same-element atom displaced by 0.08 A) restore the multiset of (element, position "
+                "sets unchanged); substitutions A->B->A (single-atom, element-swap, collinear, element swap with a same-element atom displaced by 0.08 A, two occurrences bridged by a retained atom with the retained atoms listed in another order) restore the multiset of (element, position "
                 "mod lattice) and a second search for A finds none; thorough adds UiO-66 linker self-replacement. distinct = specs")
     pairs = ['identical', 'swap-element', 'single-swap', 'collinear-swap', 'shrink-shared', 'sym-grow', 'grow-shared']
     for pi, pair in enumerate(pairs):
@@ -119,6 +134,12 @@ def run(rec, tier, seed):
             rec.case(repr(sorted(spec.items())), group='self', sample=spec if len(rec.samples) < 2 else None)
             if msg:
                 rec.fail('selfrepl', 'self-replacement', "%s on %r" % (msg, spec), spec, 'C08/self-replacement')
+    for ci, cell in enumerate(geo.CELLS):
+        spec = dict(cell=cell, bridged=True, seed=seed * 10 + 70 + ci, aba=True)
+        msg = check_aba(spec)
+        rec.case(repr(sorted(spec.items())), group='A-B-A')
+        if msg:
+            rec.fail('selfrepl', 'reversible', "%s on %r" % (msg, spec), spec, 'C08/A-B-A')
     for shared in ('CNC', 'CNCNC'):
         for rng in (0, 1):
             spec = dict(shared=shared, rng=rng)
